@@ -16,17 +16,17 @@ DESIGN_REF = "§5 C06"
 TECHNIQUE = ("Coq proof: archive interpolation search = lower bound on every sorted list (termination included); read-back of every chunk / "
              "absent addresses / counts / sizes for the written table; in-Coq byte-for-byte comparison of model-written files with files "
              "written by tableWriter and planTableConjoin, and of all reads (tables, conjoined tables, archives)")
-LEVEL_TEXT = ("Proof (P): prollyBinSearch (archive index interpolation search, modelled on unbounded numbers) terminates and returns lower_bound "
-              "on every sorted list [full]; for every record list with distinct addresses (equal prefixes allowed) and every prefix-sorted outcome "
-              "of the index sort, the table written for it reports count = number of records and the summed uncompressed size, returns every "
-              "chunk's bytes (CRC checked) and nothing for every absent address [table_roundtrip_partial]. NOT proved, checked by correspondence "
-              "only: the byte-level decode of the index block, the iterate-all permutation, conjoin (model conjoin_with is compared byte for byte "
-              "with planTableConjoin's output and all reads), archive files (only the index search is proved; has/get/iterate of real archives are "
-              "compared with the chunk set).")
+LEVEL_TEXT = ("Proof (F/M for table files, index-search level for archives, correspondence for conjoin): table_roundtrip from the BYTES - for every "
+              "record list with distinct addresses (equal 8-byte prefixes allowed) that fits the format and every prefix-sorted outcome of the index "
+              "sort, the written file re-opens (parse_write_table: footer + three index regions decode to the index), reports count and summed "
+              "uncompressed size, returns every chunk byte for byte (CRC checked), reports every absent address absent, and iterateAllChunks yields "
+              "exactly the stored chunks; prollyBinSearch (archive index interpolation search on unbounded numbers) terminates and returns "
+              "lower_bound on every sorted list. NOT proved, checked by correspondence only: conjoin_roundtrip (model conjoin_with is compared byte "
+              "for byte with planTableConjoin's output and all reads, duplicates included), archive files beyond the index search.")
 LEVEL_NOTE = ("Trusted: Coq kernel, translator, Go harness + Python glue. Parameters: checksum function, snappy (opaque payload bytes supplied by the "
               "implementation). Modelled, not verified: archive byte-span data section, zstd dictionaries, metadata/footer of archives (archive "
               "reads are checked by correspondence only; the proved part is the index search), streaming sinks, read batching.")
-THEOREMS = ["prolly_bin_search_spec", "table_roundtrip_partial"]
+THEOREMS = ["table_roundtrip", "parse_write_table", "prolly_bin_search_spec"]
 RULE = ("chunk sets of 1-22 chunks over colliding address pools (see C01), payloads of 1-24 bytes (random, constant, repeated); conjoins of 2-4 tables "
         "with and without duplicated chunks; probes = present, absent inside present prefix runs, adjacent prefixes, sorted by prefix with 20% "
         "already-found flags; sorted uint64 slices (dense runs, duplicates, 0 and 2^64-1) with targets at, next to and between elements; "
